@@ -10,3 +10,4 @@ func verifReproduceStart(_ *Species, _ *Population, _ int)       {}
 func verifReproduceEnd(_ *Species, _ *Population, _ []*Organism) {}
 func verifInnovationStored(_ *Population, _ Innovation)          {}
 func verifYield(_ string)                                        {}
+func verifMated(_, _ *Organism, _ *Genome, _ string)             {}
